@@ -7,7 +7,8 @@
 set -u
 src=$(readlink -f "$1"); sid=$2; shift 2; props="$*"
 export GOFLAGS=-mod=mod GOPROXY=off GOSUMDB=off GOTOOLCHAIN=local
-[ -n "$(git -C /repo status --porcelain)" ] && { echo "/repo not clean"; exit 3; }
+REPO=${SEED_REPO:-/repo}   # SEED_REPO: another checkout of the same commit to apply the change in (the check is then run with VERIF_REPO)
+[ -n "$(git -C $REPO status --porcelain)" ] && { echo "$REPO not clean"; exit 3; }
 prev=${SEED_CONFIRM_FROM:-}/$sid/meta.json
 if [ -n "${SEED_CONFIRM_FROM:-}" ] && [ -f "$prev" ]; then
   # the confirmation (suite, demonstration with and without the change) was done by an earlier evaluation of the
@@ -19,7 +20,7 @@ if [ -n "${SEED_CONFIRM_FROM:-}" ] && [ -f "$prev" ]; then
   echo "confirmed (earlier evaluation): demo_passes_on_pristine=$ok_clean demo_fails_with_change=$ok_mut suite_passes_with_change=$ok_suite"
 fi
 wt=/tmp/seedwt-$sid
-cleanup() { git -C /repo checkout -- . 2>/dev/null; git -C /repo clean -fdq 2>/dev/null; git -C /repo worktree remove --force $wt 2>/dev/null; }
+cleanup() { git -C $REPO checkout -- . 2>/dev/null; git -C $REPO clean -fdq 2>/dev/null; git -C /repo worktree remove --force $wt 2>/dev/null; }
 trap cleanup EXIT
 if [ -z "${SKIP:-}" ]; then
 rm -rf $wt; git -C /repo worktree add -q --detach $wt HEAD || exit 3
@@ -46,15 +47,15 @@ echo "confirmed: demo_passes_on_pristine=$ok_clean demo_fails_with_change=$ok_mu
 git -C /repo worktree remove --force $wt
 fi
 # run the checks against /repo with the patch applied
-git -C /repo apply $src/patch.diff || exit 3
+git -C $REPO apply $src/patch.diff || exit 3
 results=""
 for p in $props; do
-  out=$(cd ${VERIF_DIR:-/verif} && VERIF_EVIDENCE_DIR=/tmp/mutant_evidence ./check $p quick 2>&1); rc=$?
+  out=$(cd ${VERIF_DIR:-/verif} && VERIF_EVIDENCE_DIR=/tmp/mutant_evidence VERIF_REPO=${SEED_REPO:-} ./check $p quick 2>&1); rc=$?
   echo "---- $p quick rc=$rc"; echo "$out" | grep -E 'VIOLATION|INCONCLUSIVE|held' | cut -c1-400 | head -8
   first=$(echo "$out" | grep -m1 'VIOLATION-CANDIDATE' | cut -c1-300 | python3 -c 'import json,sys; print(json.dumps(sys.stdin.read().rstrip("\n"))[1:-1])')
   results="$results{\"check\":\"$p quick\",\"exit\":$rc,\"first_report\":\"$first\"},"
 done
-git -C /repo checkout -- . ; git -C /repo clean -fdq
+git -C $REPO checkout -- . ; git -C $REPO clean -fdq
 dst=${SEED_DST:-/verif/seeded}/$sid; mkdir -p $dst
 cp $src/patch.diff $dst/patch.diff; cp $src/demo_test.go $dst/demo_test.go; cp $src/NOTES.md $dst/NOTES.md 2>/dev/null
 cat > $dst/meta.json <<META
